@@ -191,7 +191,7 @@ func corrC18(r *Run) {
 		}
 	}
 	// random octet strings, SC length biased small so that the type peek succeeds
-	nRand := r.N(1500, 12000)
+	nRand := r.N(1100, 12000)
 	for i := 0; i < nRand; i++ {
 		n := r.Rng.Intn(48)
 		in := r.Rng.Bytes(n)
